@@ -598,9 +598,11 @@ pub fn gencase_from_bytes(data: &[u8], unsafe_mode: UnsafeMode) -> GenCase {
         0 => (0, 0),
         1 => ((b(6) % 20) as usize, (b(7) % 20) as usize),
         2 | 3 | 4 => (60, 300),
-        5 => (b(6) as usize * 4, b(6) as usize * 4 + b(7) as usize * 2),
+        5 => (b(6) as usize, b(6) as usize + b(7) as usize),
         6 => ((b(6) % 8) as usize, (b(6) % 8) as usize),
-        _ => (300 + b(6) as usize * 8, 300 + b(6) as usize * 8 + b(7) as usize * 4),
+        // generation cost grows quadratically with the program length (and ~5x under ASan), so the
+        // coverage-guided targets stay below ~800 opcodes; long programs are proptest's job
+        _ => (300 + b(6) as usize, 300 + b(6) as usize + b(7) as usize),
     };
     let mut mutators: Vec<MutK> = (0..7).filter(|i| mask & (1 << i) != 0).map(|i| ALL_MUTK[i]).collect();
     if !mutators.is_empty() {
